@@ -45,17 +45,21 @@ def yields_component(fl, f, R, oid, site, multi_ok=True):
             continue
         X = at.args[1]
         # an attribute assigned earlier in this call stands for the value it was given
-        for e in fl.events[:fl.events.index(y)]:
-            if e.kind == 'store' and not e.loops and not [g for g in e.guards if not validated(g)] and \
-                    isinstance(e.target, RF) and fl.tab.equal(e.target, X) and isinstance(e.value, RF):
-                X = e.value
+        def settled(v, upto):
+            for e in fl.events[:upto]:
+                if e.kind == 'store' and not e.loops and not [g for g in e.guards if not validated(g)] and \
+                        isinstance(e.target, RF) and isinstance(v, RF) and fl.tab.equal(e.target, v) and isinstance(e.value, RF):
+                    v = e.value
+            return v
+        X = settled(X, fl.events.index(y))
         last = None
         for e in fl.events:
             if e is y:
                 break
             if e.kind == 'store' and fmt(fl, e.target) == 'self.sigma_xsec':
                 last = e
-        ok = last is not None and fl.tab.equal(last.value, X) and last.loops == y.loops and \
+        ok = last is not None and (fl.tab.equal(last.value, X) or
+                                   fl.tab.equal(settled(last.value, fl.events.index(last)), X)) and last.loops == y.loops and \
             [(g.node, g.positive) for g in last.guards] == [(g.node, g.positive) for g in y.guards]
         if not ok and isinstance(y.value_ast, ast.Tuple) and unparse(y.value_ast.elts[1]) == 'self.sigma_xsec':
             # the attribute itself is yielded: it has to have been (re)built in this call, unconditionally
